@@ -2,7 +2,7 @@ import vp
 def jobs(tier):
     js = [vp.Job("symbols.api%d" % n, "symbols.cpp", {"MODE": 1, "NOPS": n}, max_paths=2000000, timeout=900 if tier == "quick" else 3000, min_completed=10) for n in ((3, 4) if tier == "quick" else (3, 4, 5))]
     js.append(vp.Job("symbols.pools", "symbols.cpp", {"MODE": 2}, max_paths=1000, timeout=600, min_completed=3, max_steps=40000000))
-    for t in range(1, 7):
+    for t in range(1, 9):
         js.append(vp.Job("symbols.text%d" % t, "symbols.cpp", {"MODE": 3, "T": t}, max_paths=10000, timeout=600, min_completed=1))
     return js
 
@@ -13,4 +13,4 @@ def main(tier):
         "references, scopes, shadowing, duplicates, .set and .func run through the real two-pass assembler; Z3 decides the value assertions for all addresses/values.",
         ["operation sequences up to NOPS (4 quick, 5 thorough) from an empty table: longer histories are outside the bound",
          "pool boundary: 126 concrete 250-character names fill the first pool, then 1..3 further pairs",
-         "ELF export of symbols is not covered by this check"])
+         "text template 8 (label + symbolic addend): addends below 0xfe00 so that the sum fits .dc16", "ELF export of symbols is not covered by this check"])
